@@ -166,6 +166,24 @@ def store_case(rng, tmp):
                     STORE_VIOLATIONS.append({'op': lines[0][:300], 'model': '-',
                                              'real': f'the answer {v_!r} typed for {s_}.{k_} reads back from the written file as {got!r}'})
                 keys.append('store:value-readback')
+        # statement check (C20): "contains every value it held before plus every answer given" and "re-running
+        # does not ask for those answers again" -- for plainly named forms/inputs every answer, the BLANK ones
+        # included (a blank answer is a valid answer: 0, '', "no"), is provided by the file written, and every
+        # option the file held before is still there
+        if stopped is None and all_plain:
+            for s_, k_, v_ in answers:
+                if s_ != 'DEFAULT' and '\n' not in v_ and '\r' not in v_ and not again.provides(FakeInput(s_, k_)):
+                    STORE_VIOLATIONS.append({'op': lines[0][:300], 'model': '-',
+                                             'real': f'the answer {v_!r} given for {s_}.{k_} is not in the file written: a re-run would ask for it again'})
+                keys.append('store:answer-provided' + (':blank' if not v_.strip() else ''))
+            for s_ in present:
+                for k_ in cp0.options(s_):
+                    if not (set(s_) <= _PLAIN and set(k_) <= _PLAIN):
+                        continue
+                    if not again.config.has_option(s_, k_):
+                        STORE_VIOLATIONS.append({'op': lines[0][:300], 'model': '-',
+                                                 'real': f'{s_}.{k_}, held by the file before the session, is gone from the file written'})
+                    keys.append('store:held-before-kept')
     except Exception as e:  # noqa
         exp_rerun = 'err ' + I.err_name(e)
         keys.append('store:reread-' + I.err_name(e))
